@@ -113,21 +113,12 @@ def run(ctx):
 
     R.check_block_guard(ctx, "E4.loop", P, "BlsSignatureCore::core_aggregate_verify", is_pair_push, "is_identity", ("re", r"^\(.*Iterator::next.*\)\.0\.1\.0$|Iterator::next"), "pairs.push((hash, pk)) per entry")
     # scalar import: zero => none
-    for fk in ("helpers::scalar_from_be_bytes", "helpers::scalar_from_le_bytes"):
-        fn = ctx.need_fn("E4.zero", fk)
-        if fn is None:
-            continue
-        ev = evaluate(fn)
-
-        def repr_exits(fn, ev):
-            return [b for b, s in ev.sites.items() if s.callee[0] == "PrimeField::from_repr"]
-
-        R.check_result_guard(ctx, "E4.zero", P, fk, "is_zero", P_("input"), exits=repr_exits)
+    R.check_scalar_zero_guard(ctx, "E4.zero", P)
     # all byte importers of scalars go through these helpers
     imps = call_sites(P, lambda c, t: c.get("name") == "from_repr" and c.get("trait") == "PrimeField")
     for fn, bb, t in imps:
         ctx.ob("E7.from_repr", fn.key, fn.key in ("helpers::scalar_from_be_bytes", "helpers::scalar_from_le_bytes"), "PrimeField::from_repr may only be called by the zero-checking helpers", where=where(fn, bb))
-    ctx.floor("E7.from_repr", "from_repr call sites", len(imps), 2)
+    ctx.floor("E7.from_repr", "from_repr call sites", len(imps), 1)
     # generalised pairing census: parameters flowing unmodified into a pairing slot are guarded in that function
     n = 0
     for fn, bb, t in call_sites(P, lambda c, t: c.get("name") == "pairing" and c.get("trait") == "Pairing"):
